@@ -374,7 +374,8 @@ impl RecordSet {
         // if the Records are identical, ignore the update, update all that are not (ttl, etc.)
         let mut replaced = false;
         for i in to_replace {
-            if self.records[i] == record {
+            // `Record::eq` does not look at the TTL (RFC 2136 1.1.1); a new TTL replaces the RR
+            if self.records[i] == record && self.records[i].ttl == record.ttl {
                 return false;
             }
 
